@@ -24,7 +24,11 @@ Record jcfg := {
 }.
 
 Inductive kont := KLoop | KForward (xs : list elem) | KAppend (xs : list elem) | KClose.
-Inductive jpc := Loop | Sending (s : list elem) (own : bool) (k : kont) | AwaitRel (k : kont) | Closed.
+(* why a pass() happened (ghost, recorded with the emission): the buffer reached JoinSize; unite: the next slice would
+   not have fitted / an oversize slice arrived; the timeout expired; the input was closed (or v1: stopped);
+   Forwarded marks the oversize slice itself *)
+Inductive cause := Full | Overflow | Timeout | Final | Forwarded.
+Inductive jpc := Loop | Sending (s : list elem) (own : bool) (why : cause) (k : kont) | AwaitRel (k : kont) | Closed.
 
 Record jst := {
   buf : list elem;      (* dsc.join *)
@@ -49,7 +53,7 @@ Definition ev_time (e : jev) : Z :=
 
 (* an emission: time of the write, the slice, and whether it is the accumulation buffer itself / a copy of it
    (own = true) or the producer's slice forwarded by unite (own = false) *)
-Definition emission := (Z * list elem * bool)%type.
+Definition emission := (Z * list elem * bool * cause)%type.
 
 Definition set_pc (s : jst) (c : jpc) : jst :=
   {| buf := buf s; passAt := passAt s; pc := c; unrel := unrel s; stopped := stopped s |}.
@@ -58,16 +62,16 @@ Definition set_pc (s : jst) (c : jpc) : jst :=
 Definition resume (s : jst) (k : kont) (t : Z) : jst :=
   match k with
   | KLoop => {| buf := []; passAt := t; pc := Loop; unrel := unrel s; stopped := stopped s |}
-  | KForward xs => {| buf := []; passAt := t; pc := Sending xs false KLoop; unrel := unrel s; stopped := stopped s |}
+  | KForward xs => {| buf := []; passAt := t; pc := Sending xs false Forwarded KLoop; unrel := unrel s; stopped := stopped s |}
   | KAppend xs => {| buf := xs; passAt := t; pc := Loop; unrel := unrel s; stopped := stopped s |}
   | KClose => {| buf := []; passAt := t; pc := Closed; unrel := unrel s; stopped := stopped s |}
   end.
 
 (* pass() called at time t with the accumulated elements b; k = the rest of the caller *)
-Definition do_pass (s : jst) (b : list elem) (k : kont) (t : Z) : jst :=
+Definition do_pass (s : jst) (b : list elem) (why : cause) (k : kont) (t : Z) : jst :=
   match b with
   | [] => resume s k t
-  | _ => {| buf := b; passAt := passAt s; pc := Sending b true k; unrel := unrel s; stopped := stopped s |}
+  | _ => {| buf := b; passAt := passAt s; pc := Sending b true why k; unrel := unrel s; stopped := stopped s |}
   end.
 
 Definition is_v1 (c : jcfg) : bool := match variant_of c with JoinV1 => true | _ => false end.
@@ -75,14 +79,14 @@ Definition is_unite (c : jcfg) : bool := match variant_of c with UniteV2 => true
 
 Definition process (c : jcfg) (s : jst) (t : Z) (xs : list elem) : jst :=
   if is_unite c then
-    if (jsize c <=? length xs)%nat then do_pass s (buf s) (KForward xs) t
-    else if (jsize c <? length xs + length (buf s))%nat then do_pass s (buf s) (KAppend xs) t
+    if (jsize c <=? length xs)%nat then do_pass s (buf s) Overflow (KForward xs) t
+    else if (jsize c <? length xs + length (buf s))%nat then do_pass s (buf s) Overflow (KAppend xs) t
     else let b := buf s ++ xs in
-         if (jsize c <=? length b)%nat then do_pass s b KLoop t
+         if (jsize c <=? length b)%nat then do_pass s b Full KLoop t
          else {| buf := b; passAt := passAt s; pc := Loop; unrel := unrel s; stopped := stopped s |}
   else
     let b := buf s ++ xs in
-    if (jsize c <=? length b)%nat then do_pass s b KLoop t
+    if (jsize c <=? length b)%nat then do_pass s b Full KLoop t
     else {| buf := b; passAt := passAt s; pc := Loop; unrel := unrel s; stopped := stopped s |}.
 
 (* None: the event is not enabled in this state (not a behaviour of the discipline) *)
@@ -94,17 +98,17 @@ Definition jstep (c : jcfg) (s : jst) (e : jev) : option (jst * list emission) :
   | Loop, Tick t =>
       if interval c <=? 0 then None
       else if unrel s then Some (s, [])
-      else if timeout c <=? t - passAt s then Some (do_pass s (buf s) KLoop t, []) else Some (s, [])
+      else if timeout c <=? t - passAt s then Some (do_pass s (buf s) Timeout KLoop t, []) else Some (s, [])
   | Loop, CloseIn t =>
-      if unrel s then Some (set_pc s Closed, []) else Some (do_pass s (buf s) KClose t, [])
+      if unrel s then Some (set_pc s Closed, []) else Some (do_pass s (buf s) Final KClose t, [])
   | Loop, TakeStop t =>
       if is_v1 c && stopped s then
-        if unrel s then Some (set_pc s Closed, []) else Some (do_pass s (buf s) KClose t, [])
+        if unrel s then Some (set_pc s Closed, []) else Some (do_pass s (buf s) Final KClose t, [])
       else None
-  | Sending b own k, Out t =>
-      if nocopy c then Some (set_pc s (AwaitRel k), [(t, b, own)])
-      else Some (resume s k t, [(t, b, own)])
-  | Sending b own k, Abort t =>
+  | Sending b own why k, Out t =>
+      if nocopy c then Some (set_pc s (AwaitRel k), [(t, b, own, why)])
+      else Some (resume s k t, [(t, b, own, why)])
+  | Sending b own why k, Abort t =>
       if is_v1 c && stopped s then Some (resume s k t, []) else None
   | AwaitRel k, Rel t => Some (resume s k t, [])
   | AwaitRel k, Abort t =>
